@@ -241,5 +241,25 @@ def hold_family(seed, tier):
         scns.append(scenario("hold-%d" % idx, ops, fam="hold"))
     return scns
 
+def args_family(seed, tier):
+    """Target strings of any shape on the command line (C12, C18): none of them names a file
+    of the manifest, so each must be rejected as an unknown path."""
+    weird = ["", " ", ".", "..", "/", "//", "a/", "./nonexistent", "x" * 5000,
+             "d/" * 70 + "f", "../" * 70 + "f", "\u00e9t\u00e9", "$x", "a\\b", "o1/", "o1/.", "-", "o1 o1"]
+    scns = []
+    g = graph([step(["o1"], ["s1"], cmd="cmd1")])
+    for i, wt in enumerate(weird):
+        ops = [manifest_op(g), {"op": "write", "path": "s1"}]
+        inv = invoke([wt], j=1)
+        inv["argv"] = ["-j", "1", "--", wt] if wt.startswith("-") else ["-j", "1", wt]
+        ops.append(inv)
+        if i % 3 == 0:
+            inv2 = invoke(["o1", wt], j=1)
+            inv2["argv"] = ["-j", "1", "o1", wt] if not wt.startswith("-") else ["-j", "1", "--", "o1", wt]
+            ops.append(inv2)
+        scns.append(scenario("args-%d" % i, ops, fam="sched"))
+    return scns
+
 def generate(seed, tier):
-    return exhaustive_small(seed, tier) + random_sched(seed, tier) + hold_family(seed, tier)
+    return exhaustive_small(seed, tier) + random_sched(seed, tier) + hold_family(seed, tier) \
+        + args_family(seed, tier)
